@@ -209,7 +209,8 @@ impl Win {
 			}
 			WinKind::Derivative => (s.back(0) - s.back(n)).scale(1.0 / n as f64),
 			WinKind::Momentum => s.back(0) - s.back(n),
-			WinKind::Roc => (s.back(0) - s.back(n)) / s.back(n),
+			// dimensionless quotient: radius at least a few roundings at unit scale (x/past - 1 is as good a formulation)
+			WinKind::Roc => ((s.back(0) - s.back(n)) / s.back(n)).widen(16.0 * crate::eps()),
 			WinKind::Past => s.back(n),
 			WinKind::Variance => {
 				let w = s.last_n(n);
@@ -234,7 +235,7 @@ impl Win {
 					// the guard is decided by a quantity that is rounded in every evaluation
 					return Q::undefined();
 				}
-				(s.back(0) - mean) / mad
+				((s.back(0) - mean) / mad).widen(16.0 * crate::eps())
 			}
 			WinKind::LinVol => {
 				// changes between consecutive elements; the change into the first stream element is x0 - v0
@@ -376,7 +377,7 @@ impl Tsi {
 		if den.v == 0.0 && den.r == 0.0 {
 			return Q::exact(0.0);
 		}
-		num / den
+		(num / den).widen(16.0 * crate::eps())
 	}
 }
 refvv!(Tsi);
